@@ -19,7 +19,7 @@ BLOCK = 40
 STREAM_ORDER = ['sched', 'preempt', 'faults', 'time', 'script', 'cfg']
 RULE = ('the real AsyncRunner and Interpreter run on real OS threads under a baton-passing scheduler: a runner thread and 1-3 client threads '
         'with drawn scripts over queue(uid), queue(uid, delay), pause, unpause, sleep, ending with stop() - in some runs a second client calls stop() as well - (or with an event that makes the '
-        'statechart final followed by wait(), after which in half of those runs another event is queued and a second runner is started on the final interpreter and must execute nothing); in a fifth of the runs the before_run hook pauses the runner, in a quarter the other clients are already at work while start() is called; runner knobs (interval in {0, 1/16, 1}, execute_all) drawn per run. The seeded scheduler decides '
+        'statechart final followed by wait(), after which in half of those runs another event is queued and a second runner is started on the final interpreter and must execute nothing); one run in thirteen stops and waits for a runner that was never started; in a fifth of the runs the before_run hook pauses the runner, in a quarter the other clients are already at work while start() is called; runner knobs (interval in {0, 1/16, 1}, execute_all) drawn per run. The seeded scheduler decides '
         'every context switch at fake threading/time primitives and - in the fine configuration - at LINE events inside Interpreter._queue_event '
         '/ _select_event / execute_once / _KeyifyList.__getitem__ and the AsyncRunner methods; it injects thread stalls, wall-clock jumps seen '
         'by time.time(), and sleep overshoot. History checks (events stamped with a global sequence number): executed steps (listener ground '
@@ -114,7 +114,7 @@ def run(ch, tier):
     interval = cs.pick([1 / 16, 0, 1])
     execute_all = cs.flag(1, 2)
     nclients = cs.int(1, 3)
-    ending = cs.weighted([('stop', 3), ('final-wait', 1)])
+    ending = cs.weighted([('stop', 9), ('final-wait', 3), ('never-started', 1)])
     second_runner = ending == 'final-wait' and cs.flag(1, 2)
     pause_in_hook = cs.flag(1, 5)
     early_clients = cs.flag(1, 4)      # the other clients are already at work while start() is called
@@ -238,6 +238,27 @@ def run(ch, tier):
 
         others = []
 
+        def main_never_started():
+            # a runner that is stopped (and waited for) without ever having been started: both calls return, nothing runs,
+            # and it cannot be started afterwards
+            for i in range(1, nclients):
+                t = sched.spawn(lambda i=i: (do_ops(scripts[i]), sched.log('client-done', i)), 'client%d' % i)
+                others.append(t)
+                t.start_real()
+            do_ops(scripts[0])
+            sched.block(lambda: all(t.state == 'done' for t in others), 'join-clients')
+            sched.log('stop-inv')
+            r.stop()
+            sched.log('stop-ret')
+            sched.log('wait-inv')
+            r.wait()
+            sched.log('wait-ret')
+            try:
+                r.start()
+                sched.log('restart', 'accepted')
+            except RuntimeError:
+                sched.log('restart', 'refused')
+
         def main_client():
             def launch_others():
                 for i in range(1, nclients):
@@ -289,7 +310,7 @@ def run(ch, tier):
                     r2.wait()
                     sched.log('wait2-ret')
 
-        c0 = sched.spawn(main_client, 'client0')
+        c0 = sched.spawn(main_never_started if ending == 'never-started' else main_client, 'client0')
         c0.start_real()
         sched.run()
         mark = sched.seq
@@ -324,6 +345,22 @@ def run(ch, tier):
         return res.fail('exception-in-thread', '%s died with %s: %s' % (name, cls, msg), **ctx)
     if sched.deadlock:
         return res.fail('deadlock', 'no thread can run: %s' % (sched.deadlock,), **ctx)
+    if ending == 'never-started':
+        res.stats['runs_stopping_a_runner_that_was_never_started'] += 1
+        simh = [e for e in H if e[0] <= mark]
+        kinds = [e[2] for e in simh]
+        if 'stop-ret' not in kinds or 'wait-ret' not in kinds:
+            return res.fail('stop-did-not-return', 'stop() / wait() on a runner that was never started did not return', **ctx)
+        ran = [k for k in kinds if k in ('before_run', 'after_run', 'cycle-begin', 'm-start')]
+        if ran:
+            return res.fail('executes-after-stop', 'a runner that was never started ran: %s' % ran[:5], **ctx)
+        if ('restart', 'refused') not in [(e[2], e[3]) for e in simh if e[2] == 'restart']:
+            return res.fail('lifecycle', 'start() after stop() was accepted', **ctx)
+        got = sorted(c_ for c_ in (ms.event.data.get('uid') for ms in drained if ms.event is not None))
+        want = sorted(e[3] for e in simh if e[2] == 'queue-ret')
+        if got != want:
+            return res.fail('event-lost', 'events queued %s, the synchronous drain consumed %s' % (want, got), **ctx)
+        return res
     v = check_history(H, mark, execute_all, ending)
     if v:
         res.extra['involved_uids'] = list(v[2]) if len(v) > 2 else []
